@@ -116,6 +116,37 @@ def symbol_case(ctx, data, cut, do_model=True):
         ctx.sample(dict(case, atoms=len(res[1].parts)), limit=4)
 
 
+def big_files(ctx):
+    """files larger than any plausible read buffer: a CR LF pair (and a multi-byte terminator) that straddles a 64 KiB, 128 KiB
+    or 1 MiB offset still ends ONE line; structural check only (the atoms are not sent through the model)"""
+    for mark in (1 << 16, 1 << 17, 1 << 20):
+        for term, shift in ((b"\r\n", 1), (b"\xe2\x80\xa8", 1), (b"\xe2\x80\xa8", 2), (b"\xc2\x85", 1)):
+            line = b"x" * 61 + term
+            body = line * (mark // len(line) + 4)
+            # pad the front so that the terminator of some line starts `shift` bytes before the mark
+            k = (mark // len(line)) * len(line) - len(term)     # start of the terminator of the last full line before the mark
+            pad = (mark - shift - k) % len(line)
+            front = b"p" * (pad - 1) + b"\n" if pad else b""
+            data = front + body
+            if data[mark - shift: mark - shift + len(term)] != term:
+                raise common.HarnessError("big_files: the terminator does not straddle the mark")
+            res = loaders.real_load("line", data)
+            ctx.evaluations += 1
+            ctx.bump("big-files")
+            case = dict(mode="line", size=len(data), terminator=enc_bytes(term), mark=mark)
+            if res[0] != "ok":
+                ctx.fail("raises", f"line: load of a {len(data)}-byte file raised {res[1]}", case)
+                continue
+            parts = res[1].parts
+            if b"".join(parts) != data:
+                ctx.fail("line-concat", f"line atoms of a {len(data)}-byte file do not concatenate to it", case)
+                continue
+            bad = [p for p in parts if not p.endswith(term) and p is not parts[-1] and p != front]
+            if bad or any(p == term[-1:] or p == term[1:] for p in parts):
+                ctx.fail("line-crlf-split" if term == b"\r\n" else "line-unterminated",
+                         f"a {term!r} that straddles offset {mark} of a {len(data)}-byte file was split: atoms like {bad[0][-8:] if bad else term[1:]!r}", case)
+
+
 def cli_cases(ctx, datas):
     """delimiter sets given on a real command line reach the splitter (process_args)"""
     from lithium.reducer import Lithium
@@ -237,6 +268,7 @@ def run(ctx) -> int:
         symbol_case(ctx, b"".join(rng.choice(SYM_ALPHA + [b"\xa7", b"\xc2", b"\xff"]) for _ in range(n)),
                     rng.choice([None] + CUSTOM_SETS))
     through_strategies(ctx)
+    big_files(ctx)
     cli_cases(ctx, [b"a;b]c-d^e\\f[g", b";;a]]", b"a\xc2\xa7b;c\xff\x80", b"]a^-b\\;", b"{a:b}=c?d\n[e]"] +
               ([b"".join(rng.choice(SYM_ALPHA) for _ in range(12)) for _ in range(10)] if ctx.thorough else []))
     return common.decide(ctx, proof, RULE, search=search,
